@@ -5616,6 +5616,8 @@ class CodegenCtx:
         elif literal.result_type() == OutputStorageType.BOOL:
             return "true" if literal.get_literal_result() else "false"
         elif literal.result_type() == OutputStorageType.INT:
+            if literal.get_literal_result() > 0x7fffffffffffffff:
+                return str(literal.get_literal_result()) + "u"  # (too large for any signed type: C wants that spelled out)
             return str(literal.get_literal_result())
         elif literal.result_type() == OutputStorageType.STR:
             return '"{}"'.format(self._escape_string(literal.get_literal_result()))
